@@ -785,8 +785,12 @@ def run_tasks(fn, tasks, procs):
     if procs <= 1 or len(tasks) <= 1:
         return [fn(t) for t in tasks]
     import multiprocessing as mp
+    head = []
+    if core.COVERAGE_ACTIVE:     # the cheapest shard runs in this process so that the source-coverage measurement sees it
+        head, tasks = [fn(tasks[-1])], tasks[:-1]
     with mp.get_context("fork").Pool(procs) as pool:
-        return pool.map(fn, tasks, chunksize=1)
+        out = pool.map(fn, tasks, chunksize=1)
+    return out + head
 
 
 def plan(ctx):
